@@ -22,6 +22,7 @@ import (
 	"google.golang.org/protobuf/proto"
 	"google.golang.org/protobuf/reflect/protoreflect"
 	"google.golang.org/protobuf/reflect/protoregistry"
+	"google.golang.org/protobuf/types/known/anypb"
 )
 
 // ---------------------------------------------------------------------------
@@ -456,6 +457,19 @@ func (r *inputs) buildVar(i int, vs *VarSpec, built []any) (any, error) {
 		}
 		nodes := r.resNodes[vs.Res]
 		return nodes[((vs.Node%len(nodes))+len(nodes))%len(nodes)], nil
+	case "cr":
+		// a ContainedResource wrapper around an input resource (what Bundle.entry.resource holds)
+		if vs.Res < 0 || vs.Res >= len(r.resources) {
+			return nil, fmt.Errorf("var %d: bad resource index", i)
+		}
+		cr := newMessage(findDesc("ContainedResource"))
+		fs := cr.Descriptor().Fields()
+		for k := 0; k < fs.Len(); k++ {
+			if fs.Get(k).Kind() == protoreflect.MessageKind && fs.Get(k).Message() == r.resources[vs.Res].ProtoReflect().Descriptor() {
+				cr.Set(fs.Get(k), protoreflect.ValueOfMessage(r.resources[vs.Res].ProtoReflect()))
+			}
+		}
+		return cr.Interface(), nil
 	case "coll":
 		c := make(system.Collection, 0, len(vs.Items)+vs.Spare)
 		for j := range vs.Items {
@@ -668,12 +682,81 @@ func execOp(op *Op, oc *opCtx, p *compiled, in0 *inputs, entryOverride *time.Tim
 		} else {
 			res.Outcome = fmt.Sprintf("int(%d)", v)
 		}
+	case "evalmut":
+		// evaluate, let the caller change its (private) input in place, evaluate again: the second
+		// result is a function of the input as it is now
+		priv := make([]fhir.Resource, len(in))
+		for i, r := range in {
+			priv[i] = proto.Clone(r).(fhir.Resource)
+		}
+		pidx := map[proto.Message]nodeRef{}
+		for i, r := range priv {
+			indexNodes(pidx, i, r)
+		}
+		c1, err1 := p.fp.Evaluate(priv, opts...)
+		o1 := ""
+		if err1 != nil {
+			o1 = canonErr(err1)
+		} else {
+			o1 = canonCollection(pidx, c1)
+		}
+		for _, r := range priv {
+			callerMutates(r)
+		}
+		pidx = map[proto.Message]nodeRef{}
+		for i, r := range priv {
+			indexNodes(pidx, i, r)
+		}
+		c2, err2 := p.fp.Evaluate(priv, opts...)
+		o2 := ""
+		if err2 != nil {
+			o2 = canonErr(err2)
+		} else {
+			o2 = canonCollection(pidx, c2)
+		}
+		res.Outcome = "first{" + o1 + "} after-caller-change{" + o2 + "}"
 	case "str":
 		res.Outcome = "str(" + p.fp.String() + ")"
 	default:
 		res.Outcome = "harness-error(unknown op kind " + op.Kind + ")"
 	}
 	return res
+}
+
+// callerMutates changes a resource the way its owner may between two evaluations: the id is
+// replaced, and every contained entry is unpacked, changed and marshalled back into the same Any.
+func callerMutates(r fhir.Resource) {
+	m := r.ProtoReflect()
+	setID := func(x protoreflect.Message, v string) {
+		fd := x.Descriptor().Fields().ByName("id")
+		if fd == nil || fd.Kind() != protoreflect.MessageKind {
+			return
+		}
+		id := x.Mutable(fd).Message()
+		if vf := id.Descriptor().Fields().ByName("value"); vf != nil && vf.Kind() == protoreflect.StringKind {
+			id.Set(vf, protoreflect.ValueOfString(v))
+		}
+	}
+	setID(m, "changed-by-caller")
+	cf := m.Descriptor().Fields().ByName("contained")
+	if cf == nil || !cf.IsList() {
+		return
+	}
+	l := m.Get(cf).List()
+	for i := 0; i < l.Len(); i++ {
+		a, ok := l.Get(i).Message().Interface().(*anypb.Any)
+		if !ok {
+			continue
+		}
+		cr := newMessage(findDesc("ContainedResource"))
+		if a.UnmarshalTo(cr.Interface()) != nil {
+			continue
+		}
+		if _, inner := wrapperAlt(cr); inner != nil {
+			setID(inner, fmt.Sprintf("contained-%d-changed", i))
+			_ = a.MarshalFrom(cr.Interface())
+		}
+	}
 }
 
 func execPatch(op *Op, p *compiled, resources []fhir.Resource, opts []fhirpath.EvaluateOption, res opResult) opResult {
